@@ -60,7 +60,7 @@ Print Assumptions C14_two_vs_list_spike_distance.
 Theorem C14_two_vs_list_spike_sync : forall (eps : R) (cy : bool) (mt m : R) (iv : option (R * R)) (a b : train), spike_sync_multi ROps eps cy false mt m iv [a; b] None = spike_sync_bi ROps eps cy false mt m iv a b.
 Proof. exact sync_two_list. Qed.
 Print Assumptions C14_two_vs_list_spike_sync.
-Theorem C14_two_vs_list_spike_train_order : forall (eps : R) (cy : bool) (mt m : R) (a b : train), spike_train_order_multi ROps eps cy false true mt m [a; b] None = spike_train_order_bi ROps eps cy false true mt m a b.
+Theorem C14_two_vs_list_spike_train_order : forall (eps : R) (cy nrm : bool) (mt m : R) (a b : train), spike_train_order_multi ROps eps cy false nrm mt m [a; b] None = spike_train_order_bi ROps eps cy false nrm mt m a b.
 Proof. exact order_two_list. Qed.
 Print Assumptions C14_two_vs_list_spike_train_order.
 Theorem C14_two_vs_list_isi_profile : forall (eps : R) (cy : bool) (m : R) (a b : train), isi_profile_multi ROps eps cy false m [a; b] None = Ok (isi_profile_bi ROps eps cy false m a b).
